@@ -377,6 +377,8 @@ def write_replay(prop, key, item, count):
 
 
 def write_evidence(prop, tier, level, coverage, assumptions, wall, violations):
+    if os.environ.get("VERIF_NO_EVIDENCE"):
+        return      # runs against a deliberately changed tree (run/seed_ingest.py) must not overwrite the evidence
     os.makedirs(EVIDENCE, exist_ok=True)
     ev = {
         "property_id": prop,
